@@ -75,6 +75,15 @@ func (e *Engine) registerIntrinsics() {
 		c.st.inputs = append(c.st.inputs, InputRec{Name: name, Kind: "time", T: v})
 		return c.ret(TimeV{v})
 	})
+	r(vnPkg+".TimeOrZero", func(c *CallCtx) []Outcome {
+		name := mustConstStr(c.args[0])
+		v := FreshVar("t_"+name, SInt)
+		lo := int64(c.e.bound("time-lo-unix", 946684800))
+		hi := int64(c.e.bound("time-hi-unix", 4102444800))
+		c.st.assume(Or(Eq(v, zeroTimeNs), And(Le(Mul(I(lo), I(1e9)), v), Le(v, Mul(I(hi), I(1e9))))))
+		c.st.inputs = append(c.st.inputs, InputRec{Name: name, Kind: "time", T: v})
+		return c.ret(TimeV{v})
+	})
 	r(vnPkg+".Bound", func(c *CallCtx) []Outcome {
 		name := mustConstStr(c.args[0])
 		def := mustConstInt(c.args[1])
@@ -91,6 +100,7 @@ func (e *Engine) registerIntrinsics() {
 			return nil
 		}
 		c.st.assume(cond)
+		c.st.pcChecked = c.st.pc
 		return c.ret(nil)
 	})
 	r(vnPkg+".Assert", func(c *CallCtx) []Outcome {
